@@ -663,6 +663,19 @@ func streamWrite() {
 		one(rawInstance{chord: &rawChord{degree: sp("1"), name: "m"}, values: []string{"1"}, key: sp("E#")}),
 		one(rawInstance{chord: &rawChord{degree: sp("99999999999"), name: "m"}, values: []string{"1"}}),
 		writeCase{flags: writeFlags{track: 1, instrument: "Piano"}},
+		// pieces at and beyond the longest delta time a midi file can hold (0x0FFFFFFF ticks = 279620.26 beats)
+		one(rawInstance{chord: &rawChord{degree: sp("1"), name: ""}, values: []string{"279620"}}),
+		one(rawInstance{chord: &rawChord{degree: sp("1"), name: ""}, values: []string{"279621"}}),
+		one(rawInstance{chord: &rawChord{degree: sp("1"), name: ""}, values: []string{"279620", "1/4"}}),
+		one(rawInstance{chord: &rawChord{degree: sp("1"), name: ""}, values: []string{"279620", "1/3"}}),
+		one(rawInstance{values: []string{"300000"}}),
+		one(rawInstance{values: []string{"4473925"}}),
+		one(rawInstance{values: []string{"99999999999"}}),
+		one(rawInstance{chord: &rawChord{degree: sp("1"), name: ""}, values: []string{"18446744073709551615"}}),
+		writeCase{flags: writeFlags{track: 3, instrument: "Piano"}, is: []rawInstance{
+			{values: []string{"200000"}}, {values: []string{"79620"}}, {chord: &rawChord{degree: sp("1"), name: ""}, values: []string{"1/4"}}}},
+		writeCase{flags: writeFlags{track: 3, instrument: "Piano"}, is: []rawInstance{
+			{values: []string{"200000"}}, {values: []string{"79620"}}, {chord: &rawChord{degree: sp("1"), name: ""}, values: []string{"1/2"}}}},
 		writeCase{flags: writeFlags{track: 2, instrument: "Piano"}, is: []rawInstance{
 			{chord: &rawChord{degree: sp("1"), name: ""}, values: []string{"1"}},
 			{chord: &rawChord{degree: sp("2"), name: ""}, values: []string{"1"}}, {values: []string{"2"}}}},
